@@ -53,8 +53,8 @@ CLASSES = {
     'slow-finishing': (None, 'run'),
     'import-loop': ("import helper\nprint('never')\n", 'run'),
     'swallow-once-then-finish': ("x = 0\ntry:\n    while True:\n        x += 1\nexcept BaseException:\n    x = -1\ny = x + 1\n", 'run'),
-    'call-spin': ("def spin(n):\n    print('spinning')\n    while True:\n        n += 1\n", 'call'),
-    'eval-spin': ("def spin(n):\n    while True:\n        n += 1\n", 'evaluate'),
+    'call-spin': ("def spin(n, pad=''):\n    print('spinning')\n    while True:\n        n += 1\n", 'call'),
+    'eval-spin': ("def spin(n, pad=''):\n    while True:\n        n += 1\n", 'evaluate'),
 }
 IMMORTAL = {'swallow', 'swallow-print', 'swallow-input', 'blocked-event', 'blocked-lock'}
 POLICIES = ['g-first', 's-first', 'sticky', 'uniform', 'uniform', 'pct', 'pct', 'zombie-late', 'stall']
@@ -108,7 +108,8 @@ def build(seed, tier):
     else:
         ops.append({'op': 'run'})
         if entry == 'call':
-            ops.append({'op': 'call', 'fn': 'spin', 'args_src': ['0'], 'threaded': True, 'noref': True})
+            ops.append({'op': 'call', 'fn': 'spin', 'args_src': ['0', rc.choice(["'p'", "'p' * 300", "list(range(150))"])],
+                        'threaded': True, 'noref': True})
         else:
             ops.append({'op': 'evaluate', 'expr': 'spin(0)', 'threaded': True, 'noref': True})
     k = len(ops) - 1
@@ -298,6 +299,11 @@ def judge(spec, res, k=None):
     if ok.get('g_events_after_timer', 0) > 3000:
         viol('T1-unbounded-delay', 'grader needed %s own events after the limit (%.2f virtual s incl. other threads)' % (
             ok.get('g_events_after_timer'), ok.get('virtual_after_timer', 0)))
+    # the timed-out call()/evaluate() hands the timeout back to the instructor, not a value from an earlier execution
+    if spec['ops'][k]['op'] in ('call', 'evaluate') and ok.get('ret') is not None:
+        if ok['ret'][0] != 'exception' or ok['ret'][1] != 'TimeoutError':
+            viol('T2-timed-out-call-returned-something-else', 'the timed-out %s returned %r' % (spec['ops'][k]['op'], ok['ret']))
+            return vs
     if res['sched']['probe'].get('untimed_join_on_zombie'):
         viol('T1-grader-joins-abandoned-thread', 'join() without timeout on a thread that already timed out')
     # ---- walk the boundaries from op k on
@@ -326,6 +332,9 @@ def judge(spec, res, k=None):
                 break
         # T4a: the next execution starts from a clean patch state
         if i + 1 < len(obs) and obs[i + 1]['op'] in sbx.EXEC_OPS:
+            if b.get('temporaries'):
+                viol('T4-call-scaffolding-left-in-student-namespace', 'before op %d: %s still defined' % (i + 1, b['temporaries'][:3]))
+                break
             if b['stacks'][0] != 0 or b['global_problems']:
                 viol('T4-next-execution-starts-patched', 'before op %d: patch stack depth %d, %s' % (
                     i + 1, b['stacks'][0], b['global_problems'][:3]))
